@@ -75,4 +75,14 @@ Fixpoint spec_trace_from (prev off : Z) (ds : list (frame T)) : list (T * Z * Z)
 Definition spec_trace (fs : list (frame T)) : list (T * Z * Z) :=
   spec_trace_from 0 (hdr_len fs) (data_frames fs).
 
+(* the two offsets after the scan has ended: (start of the block before the last data block,
+   start of the last data block), empty blocks included; (0, 0) without data blocks *)
+Fixpoint spec_final_from (p c off : Z) (ds : list (frame T)) : Z * Z :=
+  match ds with
+  | [] => (p, c)
+  | f :: r => spec_final_from c off (off + frame_size f) r
+  end.
+Definition spec_final (fs : list (frame T)) : Z * Z :=
+  spec_final_from 0 0 (hdr_len fs) (data_frames fs).
+
 End Spec.
